@@ -109,6 +109,18 @@ CLAIMED = {
              "acknowledge and hands nothing over before initialisation completed - this terminal model is trusted). Every cyclic frame is assumed to come back.",
         technique="Coq invariant proof over all histories + state-by-state differential correspondence",
         ref="7/C28"),
+    "C15": dict(
+        text="Theorems C15_in_process (any number of tasks, any interleaving of acquire/send/release under asyncio's FIFO hand-over: the log is a sequence of "
+             "whole exchanges and the counters form the chain 0,1..7,1..), C15_cross_process (n processes, any interleaving of lock attempt / read / message / "
+             "write-back / unlock and the creator's late initialisation: one counter chain across all processes, only the lock holder is inside an exchange), "
+             "C15_open_during_create. Ties: the real MailboxLock / ParallelMailboxLock are run by concurrent tasks and the recorded trace is replayed in the "
+             "model; real LockFile/ParallelMailboxLock objects in 2-3 forked processes are stepped command by command by the harness (half of the cases inside "
+             "the creation window, the creator stopped before its initialising call) and replayed; an ast check ties ethercat.py to the model's users: every "
+             "mbx_send/mbx_recv of Terminal is lexically inside `async with self.mbx_lock`.",
+        note=TB + "Partial for the cross-process part: POSIX atomicity of pread/pwrite/ftruncate/lockf and exclusion of fcntl record locks between processes are "
+             "assumed, crashes of a lock holder are not modelled; asyncio.Lock's hand-over to the first waiter is assumed as modelled.",
+        technique="Coq invariant proofs over interleavings + trace replay against real locks in real processes",
+        ref="7/C15"),
 }
 
 REASONS_NOT_YET = "no check built yet in this round (planned, see DESIGN.md section 7); nothing is claimed for it"
